@@ -111,6 +111,10 @@ func (h vHandler) Handle(_ context.Context, item any) error {
 // unregistered type, commit the k-th logged event, recover}.
 func VerifHydro(arg string) {
 	nops := vParam(arg, "ops", 3)
+	alphabet := 7
+	if vParam(arg, "c", 1) == 0 {
+		alphabet = 5 // without the operations on the third type (deeper sequences)
+	}
 	store := &vKV{data: map[string][]byte{}}
 	// the log file may already have handed out ids: start below a hex-digit boundary
 	store.seq = []uint64{0, 14, 254, 65534}[vChoose("ids_already_used", 4)]
@@ -121,8 +125,12 @@ func VerifHydro(arg string) {
 	verdict := map[string]string{}
 	h.Register(vHandler{typ: "a", calls: &calls, n: &n, verdict: verdict})
 	h.Register(vHandler{typ: "b", calls: &calls, n: &n, verdict: verdict})
+	// a third type whose handler may disappear (a restart with a binary that no longer has it)
+	h.Register(vHandler{typ: "c", calls: &calls, n: &n, verdict: verdict})
+	cRegistered := true
 
 	type logged struct {
+		typ     string
 		payload string
 		commit  Commit
 		live    bool
@@ -130,14 +138,26 @@ func VerifHydro(arg string) {
 	var evs []*logged
 	ctx := context.Background()
 	for step := 0; step < nops; step++ {
-		switch op := vChoose(fmt.Sprintf("op_%d", step), 5); op {
-		case 0, 1:
-			typ := []string{"a", "b"}[op]
+		switch op := vChoose(fmt.Sprintf("op_%d", step), alphabet); op {
+		case 5: // restart: same store, the handler of type c is no longer registered
+			if !cRegistered {
+				continue
+			}
+			h = &Hydro{Map: haxmap.New[string, EventHandler](), store: store}
+			h.Register(vHandler{typ: "a", calls: &calls, n: &n, verdict: verdict})
+			h.Register(vHandler{typ: "b", calls: &calls, n: &n, verdict: verdict})
+			cRegistered = false
+			vCover("handler-unregistered", true)
+		case 0, 1, 6:
+			typ := map[int]string{0: "a", 1: "b", 6: "c"}[op]
+			if typ == "c" && !cRegistered {
+				continue
+			}
 			payload := fmt.Sprintf("e%d", len(evs)+1)
 			commit, err := h.Log(typ, payload)
 			vAssert("C16/log-of-registered-type-succeeds", err == nil && commit != nil)
 			if err == nil {
-				evs = append(evs, &logged{payload: payload, commit: commit, live: true})
+				evs = append(evs, &logged{typ: typ, payload: payload, commit: commit, live: true})
 			}
 		case 2:
 			_, err := h.Log("unregistered", "x")
@@ -185,6 +205,14 @@ func VerifHydro(arg string) {
 			}
 			for _, e := range evs {
 				if !before[e.payload] {
+					continue
+				}
+				if e.typ == "c" && !cRegistered {
+					// an event whose type has no handler any more is kept and skipped
+					vCover("event-of-unregistered-type-at-recovery", true)
+					_, stillThere := store.data[string(HydroEvent{ID: base + vIDOf(e.payload)}.Key())]
+					vAssert("C16/event-of-unregistered-type-is-kept", stillThere)
+					vAssert("C16/event-of-unregistered-type-is-skipped", !vHas(calls, "decode:"+e.payload))
 					continue
 				}
 				vAssert("C16/every-uncommitted-event-is-replayed", vHas(calls, "decode:"+e.payload))
